@@ -67,6 +67,20 @@ def gate(old_vals, old_tag, new_vals, new_tag) -> bool:
     return got == (ref_key(sn) > ref_key(so))
 
 
+def gate_alt_spelling(old_vals, new_vals, kind) -> bool:
+    """--set-version targets that are valid for the pattern but spelled differently from the canonical rendering
+    (1.2.0 for 1.2 under MAJOR.MINOR[.PATCH]; 1.02 for 1.2): accepted iff strictly greater under PEP 440 — an equal version in
+    another spelling is refused"""
+    so, sn = state(old_vals, 0), state(new_vals, 0)
+    old = v2version.format_version(version.V2VersionInfo(**so), PAT)
+    if kind == 0:
+        new = str(sn["major"]) + "." + str(sn["minor"]) + "." + str(sn["patch"])          # PATCH written even when 0
+    else:
+        new = str(sn["major"]) + ".0" + str(sn["minor"]) + ("." + str(sn["patch"]) if sn["patch"] != 0 else "")   # leading zero
+    got = cli._is_valid_version(PAT, old, new)
+    return got == (ref_key(sn) > ref_key(so))
+
+
 def gate_malformed(old_vals, new_vals, k) -> bool:
     """a target that does not match the pattern in full is refused, whatever its order"""
     so, sn = state(old_vals, 0), state(new_vals, 0)
